@@ -24,9 +24,7 @@ def ints? (s : String) : Option (List Int) :=
 def nats? (s : String) : Option (List Nat) :=
   if s == "-" || s == "" then some [] else (s.splitOn ",").mapM (·.toNat?)
 
-def mdo (x : MSt) (st : MStep) : MSt :=
-  let s' := mstepT x.st.u x.m st
-  { x with m := { s' with dyn := compactDyn x.st.u s'.cfg s'.dyn } }
+def mdo (x : MSt) (st : MStep) : MSt := { x with m := mdoT x.st.u x.m st }
 
 def mstepLine (x : MSt) (line : String) : MSt × List String :=
   let bad := (x, ["bad-op " ++ line])
